@@ -1433,7 +1433,8 @@ class AnsiString:
             obj = obj[:idx] + replace + obj[idx+len(old):]
             if count > 0:
                 count -= 1
-            idx = obj._s.find(old, idx + len(new))
+            # An empty old string matches before every character: skip one so that the search advances (like str)
+            idx = obj._s.find(old, idx + len(new) + (0 if old else 1))
 
         if inplace:
             self._s = obj._s
